@@ -621,8 +621,10 @@ func (g *Gen) frameWrite(comp, ref string) {
 		conds = append(conds, fmt.Sprintf("(= %s %s)", ref, a))
 	}
 	g.frameN++
-	g.oblige(fmt.Sprintf("frame#%d:%s", g.frameN, comp), "frame", g.cur.en, or(conds...),
-		"write to "+comp+" only at locations listed under modifies or at objects allocated by this call", token.NoPos)
+	// a frame obligation is not a path condition: it is NOT assumed afterwards (an undischarged one must not make
+	// the rest of the function vacuous)
+	g.obligeX(fmt.Sprintf("frame#%d:%s", g.frameN, comp), "frame", g.cur.en, or(conds...),
+		"write to "+comp+" only at locations listed under modifies or at objects allocated by this call", token.NoPos, false)
 }
 
 func (g *Gen) frameHavocAll() {
